@@ -648,7 +648,7 @@ def parse_reader(L):
                 # destination: which ctor field receives the sequence
                 dst = None
                 after = items[i + 2] if i + 2 < len(items) else None
-                fields.append(("counted", None, {"count_bytes": n, "count_dec": cnt_dec, "elem": elem, "elem_dec": elem_dec, "in_order": in_order, "forward": fwd, "at": it[3]}))
+                fields.append(("counted", None, {"count_wrapped": (wrapper_of(end, sym) if end is not None else None), "count_bytes": n, "count_dec": cnt_dec, "elem": elem, "elem_dec": elem_dec, "in_order": in_order, "forward": fwd, "at": it[3]}))
                 i += 2
                 if after is not None and after[0] == "extend":
                     i += 1
@@ -703,6 +703,8 @@ def check_reader_variant(spec, variant, layouts):
                     continue
                 if d["count_bytes"] != want_count[1] or not d["count_dec"] or d["count_dec"][0] != want_count[0] or d["count_dec"][1] != "le":
                     problems.append("count of `%s` is read as %s/%d byte(s), S3 says %s little-endian" % (wf, d["count_dec"], d["count_bytes"], want_count[0]))
+                if d.get("count_wrapped"):
+                    problems.append("the number of elements of `%s` that are read is the file's count passed through `%s`, not the count itself: a file with more elements is not read to the end of the sequence" % (wf, d["count_wrapped"]))
                 if d["elem"] != want_elem:
                     problems.append("elements of `%s` are read as %s, S3 says %s" % (wf, d["elem"], want_elem))
                 if wp == "u16vec" and d["elem_dec"] != ("u16", "le"):
